@@ -20,11 +20,11 @@ import (
 
 func init() {
 	Registry["C06"] = Spec{
-		Fn:    c06,
-		Level: "exploration",
-		Rule: "inputs = structure-aware mutations of valid library encodings (blocks of every catalogue column and random compositions; every protocol message): every bit flipped and every byte replaced by {00,01,7f,80,ff} at every offset of small encodings; a uvarint and a 64-bit field overwritten at every offset with {0,1,cap-1,cap,cap+1,2^31,2^32,2^63-1,2^64-1} and smaller/non-monotonic neighbours; splices, truncation+garbage, duplication; decoded through typed, boxed and inferred targets and every message decoder. Two regimes: 'flood' (hook caps lowered to 2^16 rows / 2^20 string bytes; arbitrary mutations; allocation delta <= 64 MiB + 16*len) and 'cap' (hook inert; only fields set just beyond and far beyond the library's caps at known field positions; must be rejected with an allocation delta <= 4 MiB). Oracle: no panic (also in Error()/%+v of the returned error), no worker abort, no reads continuing after EOF, and on success every column reports the block's rows and every Row(i)/RowKV(i) below it works. Non-trivial = the decoder consumed at least the block header; distinct = (target, mutation kind, offset class, outcome class)",
-		Assumptions: []string{"allocation measured with runtime/metrics /gc/heap/allocs:bytes (shard workers are single-threaded)", "by-design allocations within the library's own caps (e.g. 100M rows x element size) are avoided in the flood regime by the tag-guarded extra caps"},
-		MinDistinct: 1000,
+		Fn:           c06,
+		Level:        "exploration",
+		Rule:         "inputs = structure-aware mutations of valid library encodings (blocks of every catalogue column and random compositions; every protocol message): every bit flipped and every byte replaced by {00,01,7f,80,ff} at every offset of small encodings; a uvarint and a 64-bit field overwritten at every offset with {0,1,cap-1,cap,cap+1,2^31,2^32,2^63-1,2^64-1} and smaller/non-monotonic neighbours; splices, truncation+garbage, duplication; decoded through typed, boxed and inferred targets and every message decoder. Two regimes: 'flood' (hook caps lowered to 2^16 rows / 2^20 string bytes; arbitrary mutations; allocation delta <= 64 MiB + 16*len) and 'cap' (hook inert; only fields set just beyond and far beyond the library's caps at known field positions; must be rejected with an allocation delta <= 4 MiB). Oracle: no panic (also in Error()/%+v of the returned error), no worker abort, no reads continuing after EOF, and on success every column reports the block's rows and every Row(i)/RowKV(i) below it works. Non-trivial = the decoder consumed at least the block header; distinct = (target, mutation kind, offset class, outcome class)",
+		Assumptions:  []string{"allocation measured with runtime/metrics /gc/heap/allocs:bytes (shard workers are single-threaded)", "by-design allocations within the library's own caps (e.g. 100M rows x element size) are avoided in the flood regime by the tag-guarded extra caps"},
+		MinDistinct:  1000,
 		TimeoutQuick: 15 * time.Minute,
 		MemLimit:     12 << 30,
 	}
